@@ -868,6 +868,113 @@ func TestVerif_C09(t *testing.T) {
 		vfC09Check(x, set, c, true)
 	})
 
+	// Space "describe-history": ONE long-lived Server behind ONE long-lived
+	// HttpServer; the surface is changed step by step (register a new name,
+	// re-register an existing name with another kind/schemas, change server id,
+	// service name, protocol version) and described over both transports after
+	// every step, starting with the empty server. __describe__ must describe
+	// the surface as it is at the time of the call.
+	type histOp struct {
+		kind  string
+		name  string // method name for register steps
+		label string
+		apply func(s *Server, methods map[string]vfC09Method, c *vfC09Config)
+	}
+	var histOps []histOp
+	for _, name := range []string{"a", "b"} {
+		for k := 0; k < 7; k++ {
+			m := spec(name, k+7*(k%3))
+			histOps = append(histOps, histOp{"register", name, "register " + m.String(), func(s *Server, methods map[string]vfC09Method, c *vfC09Config) {
+				vfC09Register(s, m)
+				methods[m.name] = m
+			}})
+		}
+	}
+	for _, id := range []string{"id", "id2", ""} {
+		histOps = append(histOps, histOp{"set-server-id", "", fmt.Sprintf("SetServerID(%q)", id), func(s *Server, _ map[string]vfC09Method, c *vfC09Config) {
+			s.SetServerID(id)
+			c.serverID = id
+		}})
+	}
+	for _, svc := range []string{"svc", "svc2"} {
+		histOps = append(histOps, histOp{"set-service-name", "", fmt.Sprintf("SetServiceName(%q)", svc), func(s *Server, _ map[string]vfC09Method, c *vfC09Config) {
+			s.SetServiceName(svc)
+			c.service = svc
+		}})
+	}
+	for _, v := range []string{"1.2.3", "2.0.0", ""} {
+		histOps = append(histOps, histOp{"set-protocol-version", "", fmt.Sprintf("SetProtocolVersion(%q)", v), func(s *Server, _ map[string]vfC09Method, c *vfC09Config) {
+			s.SetProtocolVersion(v)
+			c.version = v
+		}})
+	}
+	histLen := venum.QT(2, 3)
+	venum.Explore(t, venum.Cfg{Name: "describe-history", Shardable: true}, func(x *venum.X) {
+		s := NewServer()
+		h := NewHttpServer(s)
+		methods := map[string]vfC09Method{}
+		c := vfC09Config{}
+		var trail []string
+		describeBoth := func(cls string) bool {
+			set := make([]vfC09Method, 0, len(methods))
+			for _, name := range []string{"a", "b"} {
+				if m, ok := methods[name]; ok {
+					set = append(set, m)
+				}
+			}
+			pipeBody, pan := vfC09DescribePipe(s)
+			if pan != nil {
+				x.Failf("C09:panic:pipe", "describe panicked on pipe after %v: %v", trail, pan)
+				return false
+			}
+			resp, prob := vfC09Decode(pipeBody)
+			if prob != "" {
+				x.Failf("C09:pipe-response-shape", "%s (after %v)", prob, trail)
+				return false
+			}
+			rec, pan := vfArrowPost(h, "/__describe__", vfNoParamsReq("__describe__"))
+			if pan != nil {
+				x.Failf("C09:panic:http", "describe panicked on HTTP after %v: %v", trail, pan)
+				return false
+			}
+			hresp, prob := vfC09Decode(rec.Body.Bytes())
+			if prob != "" || rec.Code != 200 {
+				x.Failf("C09:http-response-shape", "status %d: %s (after %v)", rec.Code, prob, trail)
+				return false
+			}
+			// the pipe response is judged against the model of the CURRENT surface …
+			vfC09CheckListing(x, set, c, resp, "history:"+cls)
+			// … and the long-lived HTTP server must serve that very response
+			if hresp.key != resp.key {
+				x.Failf("C09:history:pipe-vs-http:"+cls, "after %v the HTTP describe is not the pipe describe\npipe: %s\nhttp: %s", trail, resp.key, hresp.key)
+			}
+			if ref := vfC09RefHash(hresp); ref != hresp.meta[MetaProtocolHash] {
+				x.Failf("C09:history:http-hash-vs-reference:"+cls, "after %v: hash served over HTTP %s, digest of the HTTP payload %s", trail, hresp.meta[MetaProtocolHash], ref)
+			}
+			x.Outcome("%s rows=%d hash=%s", cls, len(resp.rows), resp.meta[MetaProtocolHash])
+			return true
+		}
+		if !describeBoth("initial") {
+			return
+		}
+		for i := 0; i < histLen; i++ {
+			op := histOps[x.Choose(len(histOps), fmt.Sprintf("op%d", i))]
+			cls := "after-" + op.kind
+			if op.kind == "register" {
+				// registering a name that exists replaces it: a different class of step
+				if _, exists := methods[op.name]; exists {
+					cls = "after-re-register"
+				}
+			}
+			trail = append(trail, op.label)
+			op.apply(s, methods, &c)
+			x.Note("step %d: %s", i, op.label)
+			if !describeBoth(cls) {
+				return
+			}
+		}
+	})
+
 	// Space "fingerprint-twins": two methods whose explicit schemas differ only in
 	// what Schema.Fingerprint()/Schema.Equal ignore, every ordered pair of
 	// variants x every pair of stream kinds, both registration orders (inside
